@@ -143,6 +143,58 @@ func deriveCmdLine(t *Trans) *Derived {
 			impl = "ok " + entriesOut(post.Index)
 		}
 		return &Derived{Line: line, Impl: impl}
+	case "commit":
+		// goit commit [-m msg]: the model predicts the id of the new commit object (root tree of the staged
+		// entries, parent, configured identity, message) or the refusal
+		msg := ""
+		switch {
+		case len(t.Args) == 1:
+		case len(t.Args) == 3 && t.Args[1] == "-m":
+			msg = t.Args[2]
+		default:
+			return nil
+		}
+		hb, _ := pre.headBranch()
+		anyB, snapS, brS := "0", "none", "none"
+		if len(pre.Branches) > 0 {
+			anyB = "1"
+		}
+		if raw, ok := pre.Branches[hb]; ok {
+			brS = hx(raw)
+			es, _, ok := pre.commitSnapshot(string(raw))
+			if !ok {
+				return nil
+			}
+			snapS = entriesOut(es)
+		} else if anyB == "1" {
+			return nil // HEAD names a branch without a file while other branches exist: outside the model
+		}
+		cl, cg := "none", "none"
+		if pre.HasCfgLocal {
+			cl = hx(pre.CfgLocal)
+		}
+		if pre.HasCfgGlob {
+			cg = hx(pre.CfgGlobal)
+		}
+		unix := "0"
+		impl := "err"
+		if t.Res.Class == "ok" {
+			id := post.headCommit()
+			x := post.Objects[id]
+			if x == nil || !x.OK || x.Kind != "commit" {
+				return nil
+			}
+			// the clock is an input: taken from what was written
+			a := parseCommit(x.Data).Author
+			f := strings.Fields(a)
+			if len(f) < 2 {
+				return nil
+			}
+			unix = f[len(f)-2]
+			impl = "ok " + id
+		}
+		line := fmt.Sprintf("cmd.commit %s %s %s %s %s %s %s %d %s", entriesOut(pre.Index), snapS, brS, anyB, cl, cg, unix, t.TZ, hx([]byte(msg)))
+		return &Derived{Line: line, Impl: impl}
 	case "rm":
 		args := t.Args[1:]
 		if !argsOK(args) {
